@@ -317,6 +317,43 @@ pub fn k_c22_shared_twiddle_cache() {
     vreach!("C22.shared_cache.reach");
 }
 
+// the same on a trace of 16 rows with sequence assertions of 8 and 4 values: the smallest sizes at which a
+// twiddle table of the wrong order (not just the wrong length) differs from the right one
+//# harness: fn=BoundaryConstraint::new (shared twiddle cache, sequence assertions of 8 and 4 values, trace length 16), evaluate_at; label=closed(F_17, trace length 16; fixed asserted values, longer assertion prepared first, every asserted step); tier=quick; props=C22; timeout=1500
+#[cfg_attr(kani, kani::proof)]
+#[cfg_attr(kani, kani::unwind(20))]
+#[cfg_attr(kani, kani::stub(alloc::fmt::format, vs::fake_format))]
+pub fn k_c22_shared_twiddle_cache_16() {
+    let g = Tiny::get_root_of_unity(4);
+    let inv_g = g.inv();
+    let a8 = Assertion::sequence(0, 1, 2, alloc::vec![Tiny(3), Tiny(9), Tiny(14), Tiny(6), Tiny(1), Tiny(0), Tiny(16), Tiny(8)]);
+    let a4 = Assertion::sequence(1, 3, 4, alloc::vec![Tiny(5), Tiny(12), Tiny(2), Tiny(7)]);
+    let mut twiddles = BTreeMap::new();
+    let c8 = BoundaryConstraint::<Tiny, Tiny>::new(a8.clone(), inv_g, &mut twiddles, Tiny::ONE);
+    let c4 = BoundaryConstraint::<Tiny, Tiny>::new(a4.clone(), inv_g, &mut twiddles, Tiny::ONE);
+    // domain points g^s of the 16-row trace domain
+    let mut pts = [Tiny::ONE; 16];
+    let mut s = 1;
+    while s < 16 {
+        pts[s] = pts[s - 1] * g;
+        s += 1;
+    }
+    let mut ok = true;
+    let mut k = 0;
+    while k < 8 {
+        ok = ok && c8.evaluate_at(pts[1 + 2 * k], a8.values[k]) == Tiny::ZERO;
+        k += 1;
+    }
+    k = 0;
+    while k < 4 {
+        ok = ok && c4.evaluate_at(pts[3 + 4 * k], a4.values[k]) == Tiny::ZERO
+            && c4.evaluate_at(pts[3 + 4 * k], a4.values[k] + Tiny::ONE) != Tiny::ZERO;
+        k += 1;
+    }
+    vcheck!("C22.boundary_constraint.shared_twiddle_cache_16_zero_iff_value", ok);
+    vreach!("C22.shared_cache_16.reach");
+}
+
 /// two assertions that tie on (stride, first step) and differ only in their column, listed in both
 /// orders: the prepared (natural) order must be the same and sorted by column
 fn order_independent(a0: Assertion<Tiny>, a1: Assertion<Tiny>) {
